@@ -571,8 +571,10 @@ func execStep(env *Env, task int, st *Step) Result {
 		return pathResult(r)
 	case "svgpath":
 		// the textual forms and back again
-		a := buildPath(st.A).Transform(canvas.Identity.Rotate(float64(st.Opt)).Scale(1, st.W))
-		svg := a.ToSVG()
+		svg := st.SVG // equal strings in several calls of a run: independent inputs all the same
+		if svg == "" {
+			svg = buildPath(st.A).Transform(canvas.Identity.Rotate(float64(st.Opt)).Scale(1, st.W)).ToSVG()
+		}
 		q, err := canvas.ParseSVGPath(svg)
 		if err != nil {
 			return Result{Kind: "svgpath", Hash: 3, Brief: "parse error: " + err.Error()}
@@ -584,6 +586,13 @@ func execStep(env *Env, task int, st *Step) Result {
 		h.str(q.String())
 		r := pathResult(q)
 		h.u64(r.Hash)
+		// the path is the caller's: change it in place, then parse the same string once more
+		q = q.Translate(3, st.W)
+		q.Close()
+		h.str(q.String())
+		if q2, err := canvas.ParseSVGPath(svg); err == nil {
+			h.str(q2.String())
+		}
 		return Result{Kind: "svgpath", Hash: h.h, Brief: r.Brief}
 
 	case "textline":
